@@ -75,9 +75,11 @@ def identifiers(text):
     return out
 
 
-def run_query(text, limit_s=30, concrete_limit=False):
+def run_query(text, limit_s=30, concrete_limit=False, prepare=None):
     """returns (outcome, detail): outcome 'ok' | 'escape' | 'outside' | 'timeout'"""
     ds = make_datastore()
+    if prepare is not None:
+        prepare(ds)
 
     def on_alarm(sig, frm):
         raise PathTimeout()
@@ -279,6 +281,37 @@ def h_depth(x, opener, closer, inner, window):
     return obl, []  # whether the limit is hit legitimately differs between the shadow run (headroom) and the native run
 
 
+def queried_then_deleted(ds):
+    """bucket b1 is queried successfully, then deleted — on the same Datastore object"""
+    for f in ("query_bucket", "query_bucket_eventcount", "find_bucket"):
+        Q2.query("earlier", 'RETURN = %s("b1");' % f, T0, T0 + timedelta(hours=1), ds)
+    ds.delete_bucket("b1")
+
+
+def h_deleted_bucket(x):
+    """a bucket that existed and was queried earlier on the same Datastore object is unknown after its deletion:
+    every bucket function reports a function error for it (one arbitrary character may replace any character of
+    the program: still no escape)"""
+    candidates()
+    f = ["query_bucket", "query_bucket_eventcount", "find_bucket"][x.choice("fn", 3)]
+    seed = 'RETURN = %s("b1");' % f
+    chars = list(seed)
+    mutate = x.choice("mutate", 2)
+    if mutate:
+        pos = x.choice("pos", len(chars))
+        chars[pos] = sstr.fresh_char(x, "c0")
+    text = sstr.mk(chars)
+    outcome, detail = run_query(text, prepare=queried_then_deleted)
+    if outcome == "escape":
+        return [("no-escape: " + detail, False)], ["escape", detail]
+    if outcome == "timeout":
+        return [("terminates", False)], ["timeout"]
+    obl = [("no-escape", True), ("terminates", True)]
+    if not mutate:
+        obl.append(("deleted-bucket-is-an-unknown-bucket/%s" % f, outcome == "ok" and detail == "QueryFunctionException"))
+    return obl, [outcome if outcome == "ok" else "outside"]
+
+
 CONTEXTS = ["%s", "RETURN=%s", "RETURN=nop(%s)", "RETURN=[%s]", "RETURN={%s}", "RETURN={'a':%s}", "RETURN=sum_durations(%s);"]
 
 
@@ -321,6 +354,7 @@ def harnesses(tier):
                 hs.append((Harness(PROP, "mutate-seed%02d-%s" % (i, edit), h_mutate, dict(seed=seed, edit=edit), "seed %r after a %s edit at every position, then one arbitrary character substituted / inserted" % (seed, edit), split_depth=7), 1800))
         for i, seed in enumerate(SHORT_SEEDS):
             hs.append((Harness(PROP, "mutate2-short%02d" % i, h_mutate, dict(seed=seed, nsym=2), "seed %r with two arbitrary characters substituted / inserted" % seed, split_depth=8), 3600))
+    hs.append((Harness(PROP, "bucket-deleted-after-being-queried", h_deleted_bucket, {}, "the three bucket functions on a bucket that was queried and then deleted on the same Datastore object; optionally one arbitrary character substituted", split_depth=7), 900))
     hs.append((Harness(PROP, "builtin-misuse", h_misuse, dict(maxargs=2 if tier == "quick" else 3), "every registered built-in with 0..%d arguments drawn from %d values of assorted types" % (2 if tier == "quick" else 3, len(ARGS)), split_depth=8), 1800))
     hs.append((Harness(PROP, "long-inputs", h_long, {}, "integer literals of up to 4301 digits, lists / dicts nested 1500 deep, calls 700 deep, strings of 5000 characters, one arbitrary character inside", split_depth=6), 1800))
     w = 5 if tier == "quick" else 40
